@@ -10,7 +10,7 @@ Local Open Scope string_scope.
 
 Inductive tbounds := TB_EXTERIOR | TB_INTERIOR | TB_GROUND | TB_ADIABATIC.
 Record twall := mkTWl { twl_name : str; twl_space : str; twl_cons : str; twl_location : option str; twl_bounds : tbounds;
-  twl_tilt : tnum; twl_x : tnum; twl_y : tnum; twl_z : tnum; twl_polygon : bool; twl_azimuth : tnum; twl_nextto : option str }.
+  twl_tilt : tnum; twl_x : tnum; twl_y : tnum; twl_z : tnum; twl_polygon : option str; twl_azimuth : tnum; twl_nextto : option str }.
 
 Definition space_prefix : str := s2l "SPACE-".
 Definition wall_of (b : block) : res twall :=
@@ -48,7 +48,7 @@ Definition wall_of (b : block) : res twall :=
               let az := if is_loc "BOTTOM" then NConst 180 else num_or (get_num "AZIMUTH" a) 0 in
               let nextto := match bd with TB_INTERIOR => get_text "NEXT-TO" a | _ => None end in
               Ok (mkTWl (b_name b) sp cns location bd tilt (num_or (get_num "X" a) 0) (num_or (get_num "Y" a) 0)
-                        (num_or (get_num "Z" a) 0) (match get_text "POLYGON" a with Some _ => true | None => false end) az nextto)
+                        (num_or (get_num "Z" a) 0) (get_text "POLYGON" a) az nextto)
           end
       end
   | _, _ => Err 5
